@@ -2,7 +2,11 @@
 
 package mrun
 
-import "encoding/json"
+import (
+	"encoding/json"
+
+	"verif/mc/enum"
+)
 
 func j(s string) json.RawMessage { return json.RawMessage(s) }
 
@@ -29,7 +33,8 @@ func Specs() []Spec {
 	add("l4xmpp", "xmpp", false, `{}`)
 	add("l4socks", "socks4", false, `{}`, `{"commands":["CONNECT"],"ports":[80,443],"networks":["10.0.0.0/8","192.168.1.1"]}`)
 	add("l4socks", "socks5", false, `{}`, `{"auth_methods":[0]}`, `{"auth_methods":[2,128]}`)
-	add("l4regexp", "regexp", false, `{"pattern":"^GET"}`, `{"pattern":"a.c$","count":3}`, `{"pattern":"^\\x16\\x03","count":9}`)
+	add("l4regexp", "regexp", false, `{"pattern":"^GET"}`, `{"pattern":"a.c$","count":3}`, `{"pattern":"^\\x16\\x03","count":9}`,
+		`{"pattern":"^\\d+$"}`, `{"pattern":"^[a-c]+$","count":6}`, `{"pattern":"^[^\\n]*$"}`)
 	add("l4proxyprotocol", "proxy_protocol", false, `{}`)
 	add("l4rdp", "rdp", false, `{}`, `{"cookie_hash":"a0123"}`, `{"cookie_hash_regexp":"^[a-z]\\d+$"}`,
 		`{"cookie_ips":["127.0.0.1/8"],"cookie_ports":[3389]}`, `{"custom_info":"anything can go here"}`, `{"custom_info_regexp":"^([A-Za-z0-9+/]{4})*$"}`)
@@ -38,6 +43,21 @@ func Specs() []Spec {
 		`{"allow":[{"name_regexp":"^(|[-0-9a-z]+\\.)example\\.com\\.$","type":"A"}],"deny":[{"name":"evil.example.com."}],"prefer_allow":true,"default_deny":true}`)
 	add("l4openvpn", "openvpn", true, `{}`, `{"modes":["plain"]}`, `{"modes":["auth"],"group_key":"`+ovpnKey+`","auth_digest":"sha256"}`,
 		`{"modes":["crypt"],"group_key":"`+ovpnKey+`"}`, `{"modes":["crypt2"],"ignore_crypto":true,"ignore_timestamp":true}`, `{"ignore_timestamp":true}`, `{"modes":["auth"],"ignore_timestamp":true}`)
+	// keyed configurations: the keys the repository's own tests sign their sample packets with
+	// (read from the test file, so that the corpus packets authenticate and decrypt for real)
+	ovpnDir := "/repo/modules/l4openvpn"
+	if gk := enum.StringVarFromTests(ovpnDir, "groupKey12Hex"); gk != "" {
+		add("l4openvpn", "openvpn", true,
+			`{"ignore_timestamp":true,"group_key":"`+gk+`"}`,
+			`{"ignore_timestamp":true,"group_key":"`+gk+`","modes":["auth"],"auth_digest":"sha256"}`,
+			`{"ignore_timestamp":true,"group_key":"`+gk+`","group_key_direction":"inverse"}`)
+	}
+	if sk := enum.StringVarFromTests(ovpnDir, "serverKey56Base64"); sk != "" {
+		add("l4openvpn", "openvpn", true, `{"ignore_timestamp":true,"server_key":"`+sk+`"}`)
+	}
+	if ck := enum.StringVarFromTests(ovpnDir, "clientKey56Base64"); ck != "" {
+		add("l4openvpn", "openvpn", true, `{"ignore_timestamp":true,"client_keys":["`+ck+`"]}`)
+	}
 	add("l4winbox", "winbox", false, `{}`, `{"modes":["standard"]}`, `{"modes":["romon"],"username":"toms"}`, `{"username_regexp":"^[a-z]+$"}`)
 	add("l4wireguard", "wireguard", true, `{}`, `{"zero":4294967295}`)
 	add("l4tls", "tls", false, `{}`, `{"sni":["example.com"]}`, `{"alpn":["h2","http/1.1"]}`, `{"sni":["*.example.com"],"alpn":["h2"]}`)
